@@ -40,6 +40,17 @@ mod discharge {
         assert!(x.count_ones() == s as u32);
     }
 
+    /// A3d: u16::from(bool) / u8::from(bool) are the `as` casts
+    #[kani::proof]
+    fn int_from_bool_is_cast() {
+        let b: bool = kani::any();
+        assert!(u16::from(b) == b as u16);
+        assert!(u8::from(b) == b as u8);
+        let w: u16 = b.into();
+        assert!(w == b as u16);
+        assert!(w <= 1);
+    }
+
     /// A3b: char::from(u8) / u8.into() is the `as char` cast
     #[kani::proof]
     fn char_from_u8_is_cast() {
